@@ -585,3 +585,146 @@ def tracker_resolve_problem(ctx):
     if r[2][maps[0]][1] != {("sym", "ID"): ty}:
         return "resolve changes the map"
     return None
+
+
+# ---------------------------------------------------------------------------------------------------- Parser::parse
+ACTIONS = {"continue": ("enum", "Action::Continue", []), "stop": ("enum", "Action::Stop", []), "error": ("enum", "Action::Error", [("sym", "CONSUMER_ERROR")])}
+
+
+class PH(progx.InlineHooks):
+    """Parser::parse against a scripted consumer, header result and instruction stream"""
+    NO_INLINE = ("parse_header", "parse_inst", "track")
+
+    def __init__(self, ctx, script):
+        progx.InlineHooks.__init__(self, ctx)
+        self.sc = script
+        self.events = []
+        self.ninst = 0
+        self.self_ty = "Parser"
+
+    def action(self, key):
+        return ACTIONS[self.sc.get(key, "continue")]
+
+    def mcall(self, recv, m, args, e, ev):
+        if recv == ("consumer",):
+            if m == "initialize" and not args:
+                self.events.append(("initialize",))
+                return self.action("initialize")
+            if m == "consume_header" and len(args) == 1:
+                self.events.append(("consume_header", args[0]))
+                return self.action("consume_header")
+            if m == "consume_instruction" and len(args) == 1:
+                self.events.append(("consume_instruction", args[0]))
+                n = len([x for x in self.events if x[0] == "consume_instruction"])
+                return self.action("instruction%d" % n)
+            if m == "finalize" and not args:
+                self.events.append(("finalize",))
+                return self.action("finalize")
+            return NotImplemented
+        if recv == ("ttracker",) and m == "track" and len(args) == 1:
+            self.events.append(("track", args[0]))
+            return UNIT
+        if isinstance(recv, tuple) and recv and recv[0] == "struct" and recv[1] == "Parser":
+            if m == "parse_header" and not args:
+                self.events.append(("parse_header",))
+                return self.sc["header"]
+            if m == "parse_inst" and not args:
+                self.events.append(("parse_inst",))
+                k = self.ninst
+                self.ninst += 1
+                st = self.sc["stream"]
+                return st[k] if k < len(st) else ("err", ("sym", "READ-PAST-THE-END"))
+        return progx.InlineHooks.mcall(self, recv, m, args, e, ev)
+
+
+def parse_scripts():
+    I1, I2 = ("sym", "INST1"), ("sym", "INST2")
+    COMPLETE = ("err", ("enum", "State::Complete", []))
+    PERR = ("err", ("enum", "State::OperandExpected", [("sym", "OFF"), ("sym", "IDX")]))
+    ok_stream = [("ok", I1), ("ok", I2), COMPLETE]
+    base = {"header": ("ok", ("sym", "HEADER")), "stream": ok_stream}
+    yield "all callbacks continue", dict(base)
+    yield "empty instruction stream", dict(base, stream=[COMPLETE])
+    for a in ("stop", "error"):
+        yield "initialize answers %s" % a, dict(base, initialize=a)
+        yield "consume_header answers %s" % a, dict(base, consume_header=a)
+        yield "first instruction answered with %s" % a, dict(base, instruction1=a)
+        yield "second instruction answered with %s" % a, dict(base, instruction2=a)
+        yield "finalize answers %s" % a, dict(base, finalize=a)
+    yield "header unreadable", dict(base, header=("err", ("enum", "State::HeaderIncorrect", [])))
+    yield "parse error at the first instruction", dict(base, stream=[PERR])
+    yield "parse error at the second instruction", dict(base, stream=[("ok", I1), PERR])
+
+
+def parse_reference(sc):
+    """the protocol of the property -> (callback events, result)"""
+    ev = []
+
+    def res(a):
+        return {"stop": ("err", ("enum", "State::ConsumerStopRequested", [])),
+                "error": ("err", ("enum", "State::ConsumerError", [("sym", "CONSUMER_ERROR")]))}[a]
+    ev.append(("initialize",))
+    if sc.get("initialize", "continue") != "continue":
+        return ev, res(sc["initialize"])
+    if sc["header"][0] == "err":
+        return ev, sc["header"]
+    ev.append(("consume_header", sc["header"][1]))
+    if sc.get("consume_header", "continue") != "continue":
+        return ev, res(sc["consume_header"])
+    n = 0
+    for item in sc["stream"]:
+        if item[0] == "ok":
+            n += 1
+            ev.append(("consume_instruction", item[1]))
+            a = sc.get("instruction%d" % n, "continue")
+            if a != "continue":
+                return ev, res(a)
+        elif item[1] == ("enum", "State::Complete", []):
+            ev.append(("finalize",))
+            a = sc.get("finalize", "continue")
+            return ev, (("ok", UNIT) if a == "continue" else res(a))
+        else:
+            return ev, item
+    return ev, None
+
+
+def parse_problems(ctx):
+    def build():
+        out = []
+        f = ctx.rspirv.fn(PAR, "parse", "Parser")
+        for name, sc in parse_scripts():
+            inst = "parse(%s)" % name
+            h = PH(ctx, sc)
+            ev = progx.make(h, "Parser::parse")
+            selfv = ("struct", "Parser", {"decoder": ("decoder",), "consumer": ("consumer",), "type_tracker": ("ttracker",), "inst_index": 0})
+            try:
+                r = ev.run(f, {"self": selfv})
+            except SPanic as x:
+                out.append((inst, "panics: %s" % x, None))
+                continue
+            except Anchor as ex:
+                out.append((inst, "not analysable: %s" % ex, None))
+                continue
+            want_ev, want_r = parse_reference(sc)
+            cb = [x for x in h.events if x[0] in ("initialize", "consume_header", "consume_instruction", "finalize")]
+            pb = []
+            if cb != want_ev:
+                pb.append("callbacks are %s, expected %s" % ([x[0] for x in cb], [x[0] for x in want_ev]) if [x[0] for x in cb] != [x[0] for x in want_ev]
+                          else "callback arguments are %s, expected %s" % (cb, want_ev))
+            if r != want_r:
+                pb.append("result is %s, expected %s" % (short(r), short(want_r)))
+            # every parsed instruction is tracked before the next one is parsed (its type may size the next literal)
+            evs = h.events
+            for i, x in enumerate(evs):
+                if x[0] == "parse_inst":
+                    prev = [j for j in range(i) if evs[j][0] == "parse_inst"]
+                    if prev:
+                        k = prev[-1]
+                        item = sc["stream"][len(prev) - 1] if len(prev) - 1 < len(sc["stream"]) else None
+                        if item and item[0] == "ok" and ("track", item[1]) not in evs[k:i]:
+                            pb.append("%s is not given to the type tracker before the next instruction is parsed" % item[1][1])
+            if [x for x in evs if x[0] == "parse_header"] != [("parse_header",)] * (1 if sc.get("initialize", "continue") == "continue" else 0):
+                pb.append("parse_header is called %d times" % len([x for x in evs if x[0] == "parse_header"]))
+            out.append((inst, "; ".join(pb) or None, [x[0] for x in evs]))
+        return out
+    return ctx.memo("headerx_parse", build)
